@@ -633,7 +633,8 @@ func c20AppFlag(p *core.Prog, r *core.Report) {
 	// writer: in the inbound response's messageForFragment closure: ResponseCode = appError under response.applicationError
 	if f := mustFunc(p, r, "", "Connection", "handleCallReq"); f != nil {
 		ok := false
-		for _, a := range core.WithAnon(f) {
+		// (the response object may be built in a helper of handleCallReq)
+		for _, a := range p.FuncsDeep(f, 2) {
 			core.EachInstr(a, func(i ssa.Instruction) {
 				st, isSt := i.(*ssa.Store)
 				if !isSt || core.AddrField(st.Addr) != rcF {
@@ -717,7 +718,7 @@ func systemErrorCodeOf(p *core.Prog, v ssa.Value, depth int) string {
 					if !isRet || x.Index >= len(ret.Results) {
 						return
 					}
-					rv := ret.Results[x.Index]
+					rv := core.ReturnValues(ret)[x.Index]
 					if core.IsNilConst(rv) {
 						return
 					}
@@ -736,8 +737,8 @@ func systemErrorCodeOf(p *core.Prog, v ssa.Value, depth int) string {
 				if mc, isMC := x.Call.Args[idx].(*ssa.MakeClosure); isMC {
 					out := ""
 					core.EachInstr(mc.Fn.(*ssa.Function), func(i ssa.Instruction) {
-						if ret, isRet := i.(*ssa.Return); isRet && len(ret.Results) == 1 && !core.IsNilConst(ret.Results[0]) {
-							if cde := systemErrorCodeOf(p, ret.Results[0], depth+1); cde != "" {
+						if ret, isRet := i.(*ssa.Return); isRet && len(ret.Results) == 1 && !core.IsNilConst(core.ReturnValues(ret)[0]) {
+							if cde := systemErrorCodeOf(p, core.ReturnValues(ret)[0], depth+1); cde != "" {
 								out = cde
 							}
 						}
@@ -749,8 +750,8 @@ func systemErrorCodeOf(p *core.Prog, v ssa.Value, depth int) string {
 			}
 			out := ""
 			core.EachInstr(g, func(i ssa.Instruction) {
-				if ret, isRet := i.(*ssa.Return); isRet && !core.IsNilConst(ret.Results[0]) {
-					if cde := systemErrorCodeOf(p, ret.Results[0], depth+1); cde != "" {
+				if ret, isRet := i.(*ssa.Return); isRet && !core.IsNilConst(core.ReturnValues(ret)[0]) {
+					if cde := systemErrorCodeOf(p, core.ReturnValues(ret)[0], depth+1); cde != "" {
 						out = cde
 					}
 				}
